@@ -152,6 +152,8 @@ fn below_oracle(c: &BelowCase, st: &mut Stats) -> Result<(), String> {
   }
   // foreign groups
   let mut reaching: Vec<(usize, Vec<u8>)> = Vec::new(); // (group id, its message)
+  let mut seen_foreign: std::collections::BTreeSet<(Vec<u8>, Vec<u8>, u32)> = std::collections::BTreeSet::new();
+  seen_foreign.insert((c.m.0.clone(), c.epoch.0.clone(), t));
   for (gi, f) in c.foreign.iter().enumerate() {
     let ft = f.t.max(2);
     let (fm, fe, ft) = match f.kind {
@@ -166,6 +168,15 @@ fn below_oracle(c: &BelowCase, st: &mut Stats) -> Result<(), String> {
         (c.m.0.clone(), e2, ft)
       }
       _ => (c.m.0.clone(), c.epoch.0.clone(), if ft == t { ft + 1 } else { ft }),
+    };
+    // two foreign groups must not be the same measurement (their shares would add up)
+    let (fm, fe, ft) = if seen_foreign.insert((fm.clone(), fe.clone(), ft)) {
+      (fm, fe, ft)
+    } else {
+      let mut m2 = fm.clone();
+      m2.extend_from_slice(&[0xF0, gi as u8]);
+      seen_foreign.insert((m2.clone(), fe.clone(), ft));
+      (m2, fe, ft)
     };
     let cnt = if f.reaches { ft as usize } else { 1 + idx(f.count, ft as usize - 1) };
     let (fr, _) = reports(&fm, &fe, ft, ft as usize)?;
